@@ -158,6 +158,7 @@ void check_filter(const SK& s, const Obs<typename T::M>& src, Rng& r, const std:
 // ================================================================== part A: update-sketch programs
 template<typename T> struct UModel {
   uint8_t lg_k; int rf; float p; uint64_t seed; uint64_t theta0;
+  typename T::Cfg cfg;                                            // state of the sketch's update policy (travels with assignment)
   std::map<uint64_t, std::pair<typename T::M, uint32_t>> fold;   // reference hash -> (fold of all values offered, #offers)
   bool nonempty = false;
   uint64_t last_theta = 0; bool last_valid = false;
@@ -174,13 +175,14 @@ template<typename T> struct Prog {
   using Cfg = typename T::Cfg;
 
   static std::string ctx_of(const UModel<T>& m, const char* after) {
-    return std::string("after ") + after + " lg_k=" + std::to_string(m.lg_k) + " rf=" + std::to_string(m.rf) + " p=" + str(m.p) +
+    return std::string("after ") + after + " " + T::cfg_str(m.cfg) + " lg_k=" + std::to_string(m.lg_k) + " rf=" + std::to_string(m.rf) + " p=" + str(m.p) +
       " seed=" + std::to_string(m.seed) + " distinct-keys=" + std::to_string(m.fold.size());
   }
 
-  static Obs<M> observe(Live<T>& L, const Cfg& cfg, Rng& r, const char* after, bool deep) {
+  static Obs<M> observe(Live<T>& L, const Cfg&, Rng& r, const char* after, bool deep) {
     const typename T::UpdateSketch& s = *L.sk;
     UModel<T>& m = L.m;
+    const Cfg& cfg = m.cfg;
     const std::string N = T::name();
     const std::string ctx = ctx_of(m, after);
     const uint64_t k = 1ULL << m.lg_k;
@@ -203,6 +205,7 @@ template<typename T> struct Prog {
     if (theta < m.theta0) VF_CHECK(o.e.size() >= k, N + "|update|theta-lowered-with-fewer-than-k", ctx + " retained=" + std::to_string(o.e.size()));
     VF_CHECK(s.get_lg_k() == m.lg_k, N + "|update|lg_k", ctx);
     VF_CHECK(s.get_seed_hash() == ref_seed_hash(m.seed), N + "|update|seed-hash", ctx);
+    T::check_result_cfg(s, cfg, N + "|update", ctx);
     // the same keys as a Theta sketch of the same configuration fed the same key stream
     {
       const update_theta_sketch& t = *L.th;
@@ -223,6 +226,7 @@ template<typename T> struct Prog {
         if (ord == 1) VF_CHECK(oc.ordered, N + "|compact|ordered-requested-not-flagged", ctx);
         compare<T>(oc, exp_of(o), N + "|compact", ctx + " ordered=" + std::to_string(ord));
         VF_CHECK(c.get_seed_hash() == ref_seed_hash(m.seed), N + "|compact|seed-hash", ctx);
+        T::check_result_cfg(c, cfg, N + "|compact", ctx);
         if (ord == 0 || r.chance(0.3)) check_filter<T>(c, oc, r, N + "|filter-compact", ctx);
         if (r.chance(0.35)) {
           OpScope os2("serde");
@@ -260,6 +264,7 @@ template<typename T> struct Prog {
     m.p = ps[r.below(9)];
     m.seed = r.chance(0.6) ? DEFAULT_SEED : r.next();
     m.theta0 = model_theta0(m.p);
+    m.cfg = cfg;
     const uint64_t k = 1ULL << m.lg_k;
     const uint64_t nops_max = big ? 5 * k : (r.chance(0.4) ? 6 * k : k + k / 2);
     const uint64_t nops = r.below(std::min<uint64_t>(nops_max, TH ? 90000 : 9000) + 1);
@@ -272,13 +277,43 @@ template<typename T> struct Prog {
 
     std::vector<Live<T>> pool;
     pool.reserve(8);
-    {
-      Live<T> L; L.m = m;
-      L.sk.reset(new typename T::UpdateSketch(T::make_update(cfg, m.lg_k, m.rf, m.p, m.seed)));
-      L.th.reset(new update_theta_sketch(update_theta_sketch::builder().set_lg_k(m.lg_k).set_resize_factor(static_cast<theta_constants::resize_factor>(m.rf))
-        .set_p(m.p).set_seed(m.seed).build()));
-      pool.push_back(std::move(L));
-    }
+    auto make_live = [&](const UModel<T>& mm) {
+      Live<T> L; L.m = mm;
+      L.sk.reset(new typename T::UpdateSketch(T::make_update(mm.cfg, mm.lg_k, mm.rf, mm.p, mm.seed)));
+      L.th.reset(new update_theta_sketch(update_theta_sketch::builder().set_lg_k(mm.lg_k).set_resize_factor(static_cast<theta_constants::resize_factor>(mm.rf))
+        .set_p(mm.p).set_seed(mm.seed).build()));
+      return L;
+    };
+    // a sketch whose configuration AND update-policy state differ from the first one's
+    auto other_model = [&]() {
+      UModel<T> o;
+      o.lg_k = static_cast<uint8_t>(r.range(5, 8)); o.rf = static_cast<int>(r.below(4));
+      o.p = ps[r.below(9)]; o.seed = r.chance(0.5) ? m.seed : r.next(); o.theta0 = model_theta0(o.p);
+      o.cfg = T::gen_cfg(r);
+      return o;
+    };
+    auto one_update = [&](Live<T>& L, const Val& v) -> typename T::UV {
+      typename T::UV uv = T::gen_uv(r, L.m.cfg);
+      {
+        OpScope os("update");
+        T::do_update(*L.sk, v, uv, r, L.m.cfg);
+      }
+      apply_update(*L.th, v);
+      if (!v.ignored()) {
+        const uint64_t h = v.ref_hash(L.m.seed).h1 >> 1;
+        L.m.nonempty = true;
+        auto it = L.m.fold.find(h);
+        if (it == L.m.fold.end()) it = L.m.fold.emplace(h, std::make_pair(T::m_create(L.m.cfg), 0u)).first;
+        T::m_update(it->second.first, uv);
+        it->second.second++;
+      } else count("ignored_empty_string");
+      return uv;
+    };
+    auto note_assign = [&](const UModel<T>& dst, const UModel<T>& src, const char* how) {
+      if (dst.lg_k != src.lg_k || dst.p != src.p || dst.seed != src.seed || dst.rf != src.rf) count(std::string(how) + "_between_different_configurations");
+      if (T::cfg_str(dst.cfg) != T::cfg_str(src.cfg)) count(std::string(how) + "_between_different_policy_state_" + T::name());
+    };
+    pool.push_back(make_live(m));
     observe(pool[0], cfg, r, "construction", true);
     const uint64_t obs_every = nops <= 100 ? 1 : (nops <= 3000 ? 1 + r.below(60) : 1 + r.below(nops / 12 + 1));
     uint64_t nobs = 0;
@@ -289,29 +324,23 @@ template<typename T> struct Prog {
       bool pool_changed = false;
       const uint64_t op = r.below(1000);
       const char* what = "update";
-      if (op < 962) {
+      if (op < 957) {
         Val v = gen_val(r, domain, fixed_kind);
-        typename T::UV uv = T::gen_uv(r, cfg);
-        {
-          OpScope os("update");
-          T::do_update(*L.sk, v, uv, r, cfg);
-        }
-        apply_update(*L.th, v);
-        if (!v.ignored()) {
-          const uint64_t h = v.ref_hash(L.m.seed).h1 >> 1;
-          L.m.nonempty = true;
-          auto it = L.m.fold.find(h);
-          if (it == L.m.fold.end()) it = L.m.fold.emplace(h, std::make_pair(T::m_create(cfg), 0u)).first;
-          T::m_update(it->second.first, uv);
-          it->second.second++;
-        } else count("ignored_empty_string");
+        typename T::UV uv = one_update(L, v);
         if (want_sample() && i < 5) sample_ops += v.to_string() + "=>" + T::uv_str(uv) + ";";
+      } else if (op < 962) {
+        if (pool.size() < 3) {   // a fresh sketch with another configuration and another policy state joins the pool
+          pool.push_back(make_live(other_model())); what = "spawn"; count("spawn_different_configuration");
+          observe(pool.back(), cfg, r, what, false);
+          pool_changed = true;
+        }
       } else if (op < 970) {
         OpScope os("trim");
+        const uint64_t kk = 1ULL << L.m.lg_k;
         const uint32_t before = L.sk->get_num_retained();
         L.sk->trim(); L.th->trim(); what = "trim"; count("trim");
-        if (before > k) count("trim_effective");
-        VF_CHECK(L.sk->get_num_retained() <= k, N + "|trim|more-than-k-after-trim", "retained=" + std::to_string(L.sk->get_num_retained()));
+        if (before > kk) count("trim_effective");
+        VF_CHECK(L.sk->get_num_retained() <= kk, N + "|trim|more-than-k-after-trim", "retained=" + std::to_string(L.sk->get_num_retained()));
         observe(L, cfg, r, what, false);
       } else if (op < 975) {
         OpScope os("reset");
@@ -335,7 +364,7 @@ template<typename T> struct Prog {
           OpScope os("copy-assign");
           size_t a = r.below(pool.size()), b = r.chance(0.15) ? a : r.below(pool.size());
           *pool[a].sk = *pool[b].sk; *pool[a].th = *pool[b].th;
-          if (a != b) { pool[a].m = pool[b].m; count("copy_assign"); } else count("self_assign");
+          if (a != b) { note_assign(pool[a].m, pool[b].m, "copy_assign"); pool[a].m = pool[b].m; count("copy_assign"); } else count("self_assign");
           observe(pool[a], cfg, r, "copy-assign", false);
           if (a != b) observe(pool[b], cfg, r, "copy-assign-source", false);
         }
@@ -344,6 +373,7 @@ template<typename T> struct Prog {
           size_t a = r.below(pool.size()), b = r.below(pool.size());
           if (a != b) {
             OpScope os("move-assign");
+            note_assign(pool[a].m, pool[b].m, "move_assign");
             *pool[a].sk = std::move(*pool[b].sk); *pool[a].th = std::move(*pool[b].th); pool[a].m = pool[b].m; count("move_assign");
             observe(pool[a], cfg, r, "move-assign", false);
             pool.erase(pool.begin() + static_cast<long>(b));   // moved-from must be destructible
@@ -352,6 +382,32 @@ template<typename T> struct Prog {
         }
       }
       if (!pool_changed && ((i % obs_every) == 0 || i + 1 == nops)) { observe(L, cfg, r, what, (nobs++ % 5) == 0); }
+    }
+    // Epilogue of every program: a sketch B of another configuration and policy state is assigned onto pool[0]
+    // (copy or move); the target must take over B's state INCLUDING its policy: later values are folded with it.
+    {
+      Live<T> B = make_live(other_model());
+      const uint64_t nb = r.below(40), na = 1 + r.below(40);
+      for (uint64_t i = 0; i < nb; ++i) one_update(B, gen_val(r, 64, fixed_kind));
+      Live<T>& A = pool[0];
+      const bool mv = r.coin();
+      note_assign(A.m, B.m, mv ? "move_assign" : "copy_assign");
+      {
+        OpScope os(mv ? "move-assign" : "copy-assign");
+        if (mv) { *A.sk = std::move(*B.sk); *A.th = std::move(*B.th); count("move_assign"); }
+        else { *A.sk = *B.sk; *A.th = *B.th; count("copy_assign"); }
+      }
+      A.m = B.m;
+      observe(A, cfg, r, mv ? "move-assign(epilogue)" : "copy-assign(epilogue)", false);
+      for (uint64_t i = 0; i < na; ++i) one_update(A, gen_val(r, 64, fixed_kind));
+      observe(A, cfg, r, "updates-after-assignment", true);
+      if (!mv) {   // the source of a copy-assignment is untouched and independent of the target's later updates
+        observe(B, cfg, r, "copy-assign-source(epilogue)", false);
+        for (uint64_t i = 0; i < 5; ++i) one_update(B, gen_val(r, 64, fixed_kind));
+        observe(B, cfg, r, "copy-assign-source-updated", false);
+        observe(A, cfg, r, "target-after-source-updated", false);
+      }
+      count("assignment_epilogues");
     }
     for (auto& L : pool) {
       Obs<M> o = observe(L, cfg, r, "end", true);
